@@ -184,6 +184,9 @@ func (g *gateEval) stmts(list []ast.Stmt) {
 			}
 			g.call(c)
 		default:
+			if emptyDefer(s) {
+				continue
+			}
 			g.bad("statement %T is not part of a bit-parallel body", s)
 		}
 	}
